@@ -19,6 +19,13 @@ TAGS = ['<b>', '</b>', '<br>', '<span class="x">', '</span>', '<!-- c -->', '<sc
 UNICODE_EDGE = [' ', ' ', '\u0085', ' ', '　', 'é', 'ß', 'İ', 'Σ', 'ς', 'ͅ', '٣', '﻿',
                 '​', '\U0001F600', 'ǅ']
 RESERVED = ['\u0000', '\u0001', '\u0002']
+# patterns on which CPython's pattern parser fails in its various ways (re.error, OverflowError, ValueError, RecursionError),
+# or which are legal but unusual
+HOSTILE_REGEX = ['a{4294967296}', 'a{' + '1' * 4400 + '}', '(' * 1200 + 'a' + ')' * 1200, '(?<=a*)b', '(?P<n>a', 'a**', '[z-a]', '\\1',
+                 '(a)(?(1)b|c)', 'x{2,1}', '\\p{L}', '(?#c', 'a{1,' + '9' * 30 + '}', '(?i', '[[:alpha:]]', '\\', '(?P=n)', 'a{,}', '*a', '+',
+                 '(?<!x)y', '\\Z|\\A', '[^\\s\\S]', '(|a)+b']
+# line boundaries of str.splitlines() that are not line terminators for Rimu
+LINESEPS = ['\x0b', '\x0c', '\x1c', '\x1d', '\x1e', '\x85', '\u2028', '\u2029']
 MARKERS = ['-', '+', '*', '**', '***', '****', '.', '..', '...', '....', '::', ':::', '::::']
 MACRO_NAMES = ['m', 'm1', 'mac-ro', 'x', '--', '--header-ids', 'undef']
 BLOCK_NAMES = ['paragraph', 'division', 'quote', 'code', 'html', 'indented', 'quote-paragraph', 'comment',
@@ -59,7 +66,7 @@ def inline(rng, depth=2, safe_only=False):
         elif k < 0.97:
             parts.append(macro_invocation(rng))
         else:
-            parts.append(rng.choice(UNICODE_EDGE))
+            parts.append(rng.choice(UNICODE_EDGE + LINESEPS))
     sep = [' ', ' ', ' ', '', '\n']
     out = ''
     for p in parts:
@@ -107,9 +114,9 @@ def macro_invocation(rng):
     if k < 0.7:
         return '{%s|%s}' % (name, '|'.join(word(rng) for _ in range(rng.randint(0, 3))))
     if k < 0.8:
-        return '{%s=%s}' % (name, rng.choice(['', '.*', 'a.*', '[', 'x|y', '\\d+']))
+        return '{%s=%s}' % (name, rng.choice(['', '.*', 'a.*', '[', 'x|y', '\\d+', rng.choice(HOSTILE_REGEX).replace('}', '\\}')]))
     if k < 0.9:
-        return '{%s!%s}' % (name, rng.choice(['', '.*', 'a', '(', 'x']))
+        return '{%s!%s}' % (name, rng.choice(['', '.*', 'a', '(', 'x', rng.choice(HOSTILE_REGEX).replace('}', '\\}')]))
     return '{%s?}' % name
 
 
@@ -134,7 +141,8 @@ def definition_line(rng):
                               rng.choice(['<u>|</u>', '<q>||</q>', '<i>|', 'x', '<span class="a">|</span>', '<tt>|</tt>', '<i>||</i>',
                                           '{m1}|</u>', '<u class="{m2}">||</u>', '<u>|{m1}', '<b>||</{m2|b|c}>']))
     if k == 2:
-        return "/%s/%s = '%s'" % (rng.choice(['\\bfoo\\b', 'x+', '(a)|(b)', '(', 'a*', '(.+)', '[a-z]{2}', '\\\\?\\.{3}', 'A', '(?i)q']),
+        return "/%s/%s = '%s'" % (rng.choice(['\\bfoo\\b', 'x+', '(a)|(b)', '(', 'a*', '(.+)', '[a-z]{2}', '\\\\?\\.{3}', 'A', '(?i)q',
+                                              rng.choice(HOSTILE_REGEX)]),
                                   rng.choice(['', 'i', 'g', 'm', 'ig']),
                                   rng.choice(['bar', '[$1]', '$$1', '<b>$1</b>', '$2$1', '', '&hellip;', '{m1}', 'v {m2|a|b}', '$a $1', '$$b',
                                               '$_x', '\\$1', '$']))
@@ -242,7 +250,7 @@ def malform(rng, src):
         if k < 0.3 and s:
             del s[min(pos, len(s) - 1)]
         elif k < 0.6:
-            s.insert(pos, rng.choice(SPECIALS + RESERVED + UNICODE_EDGE + ['\r', '\r\n', '\n', ' ', '\t']))
+            s.insert(pos, rng.choice(SPECIALS + RESERVED + UNICODE_EDGE + LINESEPS + ['\r', '\r\n', '\n', ' ', '\t']))
         elif k < 0.8 and s:
             a = min(pos, len(s) - 1)
             b = min(len(s), a + rng.randint(1, 12))
